@@ -24,14 +24,16 @@ fn as_str<const L: usize>(b: &[u8; L]) -> &str {
     }
 }
 
-/// Reference in "skip" form: a control sequence runs from an ASCII control character through the
-/// next 'm' (inclusive) or to the end of the text; everything outside such sequences counts 1.
+/// Reference in "skip" form, stated at the level of the property: an ANSI escape sequence runs from
+/// ESC (0x1b) through the next 'm' (inclusive) or to the end of the text and takes no columns; every
+/// other character - including a tab or any other control character - counts (1 with feature `unicode`
+/// off), so text after it is never hidden from the width accounting.
 fn ref_width(b: &[u8]) -> usize {
     let mut w = 0;
     let mut i = 0;
     while i < b.len() {
         let c = b[i];
-        if c < 0x20 || c == 0x7f {
+        if c == 0x1b {
             // skip to just past the next 'm'
             let mut j = i + 1;
             while j < b.len() && b[j] != b'm' {
